@@ -261,3 +261,9 @@ mod bench {
     }
 }
 */
+
+#[cfg(feature = "verif")]
+#[allow(missing_docs, dead_code, unused_imports)]
+pub(crate) mod verif_h {
+    include!(concat!(env!("H2_VERIF_DIR"), "/harness/hpack/huffman/mod.rs"));
+}
